@@ -88,6 +88,17 @@ def processCurrent (i : Inst) (market : Nat) (ref : List Char) : Inst × Resolve
 def addStrategy (i : Inst) (hash : List Char) : Inst :=
   { i with strategies := i.strategies ++ [{ idx := i.strategies.length, hash := hash }] }
 
+/-- the bet-id step of `process_current_orders` that follows the lookup by reference ("replaceOrder handling"): a bet that
+    replaced another one keeps the customer reference of the bet it replaced, so the order found by reference may be the
+    REPLACED one - it is recognised by its different bet id, and the update goes to the order that carries the update's bet id,
+    or to nobody.  `byRefBet` is the bet id of the order found by reference (none: the order has no bet id yet), `known` the
+    bet ids of the local orders.  Answer: none = skipped, some none = the order found by reference, some (some b) = the order
+    with bet id b -/
+def pickByBet (byRefBet : Option Nat) (bet : Nat) (known : List Nat) : Option (Option Nat) :=
+  match byRefBet with
+  | some b => if b ≠ bet then (if known.contains bet then some (some bet) else none) else some none
+  | none => some none
+
 /-- `Blotter.process_cleared_orders` for one cleared order (the live cleared-orders path): the order of that market's blotter
     whose id is `customer_order_ref[STRATEGY_NAME_HASH_LENGTH + 1:]` - the blotter module's own constant - gets the cleared
     order attached; nothing else changes -/
